@@ -14,16 +14,28 @@ def corpus_cases(pid):
                 if ln and not ln.startswith('#'): out.append(ln)
     return out
 
+HARNESS_OF_CLASS = {'D': 'classes', 'U': 'classes', 'DM': 'multi', 'UM': 'multi', 'DW': 'multi', 'UW': 'multi'}
+def default_route(case):
+    return HARNESS_OF_CLASS.get(case.split(None, 1)[0])
+
 class Session:
-    """One harness binary + the driver; evaluates batches of cases."""
-    def __init__(self, P, pid, exe):
-        self.P, self.pid, self.exe = P, pid, exe
+    """Harness binaries + the driver; evaluates batches of cases (each case goes to the harness that knows its class)."""
+    def __init__(self, P, pid, exes):
+        self.P, self.pid, self.exes = P, pid, exes
     def evaluate(self, cases):
-        impl, aborts = run_impl(self.exe, cases, timeout=self.P.get('impl_timeout', 900))
+        impl, aborts = {}, {}
+        names = list(self.exes)
+        for name in names:
+            sub = [c for c in cases if len(names) == 1 or (self.P.get('route') or default_route)(c) == name]
+            if not sub: continue
+            i2, a2 = run_impl(self.exes[name], sub, timeout=self.P.get('impl_timeout', 900))
+            impl.update(i2); aborts.update(a2)
         ms, rc, err = run_driver(impl, cases, self.P.get('driver_args'))
         verdicts = {}
+        segs = self.P.get('segments')
         for c in cases:
-            verdicts[c] = judge(c, impl.get(c, ['I MISSING']), ms.get(c, []), self.P.get('segments'))
+            sg = segs.get(c.split(None, 1)[0]) if isinstance(segs, dict) else segs
+            verdicts[c] = judge(c, impl.get(c, ['I MISSING']), ms.get(c, []), sg)
         return impl, ms, aborts, verdicts, (rc, err)
 
 def run_property(pid, P, tier, seed):
@@ -46,9 +58,15 @@ def run_property(pid, P, tier, seed):
     elif not drv_ok: proof_broken = 'extracted driver does not build: ' + blog[-600:]
     # ---- 2. harness from /repo's current tree
     bdir = os.path.join(BUILD, pid)
-    exe, cerr, cdt = build_harness(P['harness'], bdir, flags=P.get('flags'))
+    hnames = P['harness'] if isinstance(P['harness'], list) else [P['harness']]
+    from concurrent.futures import ThreadPoolExecutor
+    with ThreadPoolExecutor(max_workers=4) as ex:
+        built = list(ex.map(lambda h: build_harness(h, bdir, flags=P.get('flags')), hnames))
+    exes = {h: b[0] for h, b in zip(hnames, built)}
+    cerr = '\n'.join(b[1] for b in built if b[0] is None)
+    exe = None if any(b[0] is None for b in built) else exes
     if exe is None:
-        rp = write_replay(pid, {'property': pid, 'kind': 'harness-does-not-compile', 'detail': cerr, 'what': 'the public API used by harness/impl_%s.cpp no longer compiles against /repo/include' % P['harness']})
+        rp = write_replay(pid, {'property': pid, 'kind': 'harness-does-not-compile', 'detail': cerr, 'what': 'the public API used by harness/impl_%s.cpp no longer compiles against /repo/include' % P['harness'], 'note': 'build flags ' + ' '.join(P.get('flags') or CXX_QUICK)})
         lines.append('VIOLATION property=%s replay=%s no-failing-input-found' % (pid, rp))
         finish(pid, P, tier, seed, t0, theorems, discharged, assum, {}, 1, lines, extra={'harness_error': cerr[-800:]})
         return 1
@@ -142,7 +160,7 @@ def finish(pid, P, tier, seed, t0, theorems, discharged, assum, cov, violations,
     tb = ['Coq 8.16.1 kernel (coqc, full .vo build; vm_compute used, native_compute not used)',
           'extraction: ExtrOcamlBasic only (Extract Inductive bool/option/unit/list/prod/sumbool/sumor, inlined fst/snd/andb/orb/negb); nat/positive/Z stay inductive; no Extract Constant of ours',
           'OCaml driver (parsing/printing glue), cross-checked in-kernel on a sample each run',
-          'C++ harness harness/impl_%s.cpp + generators + comparison (lib/, gen/)' % P['harness'],
+          'C++ harness harness/impl_%s.cpp + generators + comparison (lib/, gen/)' % (P['harness'],),
           'g++ 12 / libstdc++ / ASan+UBSan as installed']
     for name in theorems:
         tb.append('Print Assumptions %s: %s' % (name, assum.get(name, 'n/a')))
